@@ -243,9 +243,16 @@ def _no_pedal_events(b):
 def _note_array_and_tracks(b, rng):
     import partitura.performance as pf
     from fractions import Fraction
-    for (ppq, mpq) in ((480, 500000), (96, 600000), (960, 250000)):
+    def ticks(t, ppq, mpq):
+        """the exact nearest tick (both neighbours when the time lies half-way up to float rounding)"""
+        x = Fraction(10**6 * ppq) * Fraction(t) / mpq
+        lo = x.numerator // x.denominator
+        if abs(x - lo - Fraction(1, 2)) < Fraction(1, 10**5):
+            return {lo, lo + 1}
+        return {lo + 1} if x - lo > Fraction(1, 2) else {lo}
+    for (ppq, mpq) in ((480, 500000), (96, 600000), (960, 250000), (480, 461538), (480, 700000), (384, 333333)):
         for notes, ctl in (([(60, 0, 1), (64, 0.5, 2.5), (60, 2, 4)], []), ([(60, 0, 1), (64, 0.5, 2.5), (60, 2, 4)], [(64, 0.5, 127), (64, 5, 0)]),
-                           ([(72, 0.013, 0.5), (30, 1.0004, 1.0004)], [(64, 0.2, 100)])):
+                           ([(72, 0.013, 0.5), (30, 1.0004, 1.0004)], [(64, 0.2, 100)]), ([(60, 1.3, 2.9), (62, 601.125, 602.5), (64, 3599.77, 3600.01)], [])):
             case = {"notes": notes, "controls": ctl, "ppq": ppq, "mpq": mpq}
             part = _mk_part(notes, ctl)
             part.ppq, part.mpq = ppq, mpq
@@ -255,9 +262,9 @@ def _note_array_and_tracks(b, rng):
             good, what = True, ""
             for row, n in zip(na, part.notes):
                 on_t = round(Fraction(10**6 * ppq) * Fraction(n["note_on"]) / mpq)
-                if abs(row["onset_sec"] - n["note_on"]) > 1e-5 or abs(int(row["onset_tick"]) - on_t) > 1:
-                    good, what = False, "onset seconds/ticks disagree under ppq/mpq"
-                if abs(row["duration_sec"] - (n["sound_off"] - n["note_on"])) > 1e-5:
+                if abs(row["onset_sec"] - n["note_on"]) > 1e-5 * (1 + abs(n["note_on"])) or int(row["onset_tick"]) not in ticks(n["note_on"], ppq, mpq):
+                    good, what = False, "onset %r s is tick %r, the nearest tick under ppq/mpq is %r" % (n["note_on"], int(row["onset_tick"]), sorted(ticks(n["note_on"], ppq, mpq)))
+                if abs(row["duration_sec"] - (n["sound_off"] - n["note_on"])) > 1e-5 * (1 + abs(n["sound_off"])):
                     good, what = False, "duration_sec is not up to the sounding end"
                 if n["sound_off"] == n["note_off"]:
                     off_t = round(Fraction(10**6 * ppq) * Fraction(n["note_off"]) / mpq)
@@ -268,8 +275,8 @@ def _note_array_and_tracks(b, rng):
             b.case("note_array/seconds_ticks_agree_and_durations_to_sounding_end", good, case, what)
             ok, back = b.guard("note_array/from_note_array", case, lambda: pf.PerformedPart.from_note_array(na))
             if ok:
-                same = all(m["midi_pitch"] == n["midi_pitch"] and m["velocity"] == n["velocity"] and abs(m["note_on"] - n["note_on"]) < 1e-5
-                           and abs(m["sound_off"] - n["sound_off"]) < 1e-5 for m, n in zip(back.notes, part.notes)) and len(back.notes) == len(part.notes)
+                same = all(m["midi_pitch"] == n["midi_pitch"] and m["velocity"] == n["velocity"] and abs(m["note_on"] - n["note_on"]) < 1e-5 * (1 + abs(n["note_on"]))
+                           and abs(m["sound_off"] - n["sound_off"]) < 1e-5 * (1 + abs(n["sound_off"])) for m, n in zip(back.notes, part.notes)) and len(back.notes) == len(part.notes)
                 b.case("note_array/rebuilt_part_same_pitches_velocities_onsets_sounding_ends", same, case, "round trip through the note array differs")
     # track renumbering: unique across parts, parts not mixed
     for tracks in itertools.product([[0], [1], [0, 1], [3, 3], [2, 0]], repeat=2):
